@@ -1,6 +1,7 @@
 /- DriverSim.lean — line-protocol handlers for the SimulatedOrder model (pure domain). -/
 import Flumine.Proto
 import Flumine.SimOrder
+import Flumine.SimLoop
 namespace Flumine.DriverSim
 open Flumine Flumine.Proto
 
@@ -88,6 +89,26 @@ def runOps (o : SimOrder) : List (List String) → List String → Option (List 
   | op :: rest, acc => do
     let (o1, out) ← stepOp o op
     runOps o1 rest (out :: acc)
+
+/-- `profit side kind ladder(C/L) price sm avg runnerStatus marketType ew|- deadheat|- lineResult|-` -/
+def handleProfit (toks : List String) : Option String := do
+  match toks with
+  | [sd, kd, ld, pr, sm, avg, rst, mtype, ew, dh, lr] =>
+    let side ← Side.ofName? sd
+    let kind ← parseKind? kd
+    let price ← parseRat? pr
+    let sm' ← parseRat? sm
+    let avg' ← parseRat? avg
+    let rs : Option RStatus ← (if rst = "-" then some none else (parseRStatus? rst).map some)
+    let ew' ← parseOptRat? ew
+    let dh' : Option Nat ← (if dh = "-" then some none else dh.toNat?.map some)
+    let lr' ← parseOptRat? lr
+    let so : SimOrder := { side := side, kind := kind, price := price, size := sm', sizeMatched := sm', avgPrice := avg' }
+    let lad : LadderKind := if ld = "L" then .lineRange else .classic
+    let mt : Option String := if mtype = "-" then none else some mtype
+    let o : Order := { id := 0, trade := 0, strategy := 0, market := 0, sel := 0, sim := so, ladder := lad, runnerStatus := rs, marketType := mt, ewDivisor := ew', deadHeat := dh', lineResult := lr' }
+    some (showRat (simProfit o))
+  | _ => none
 
 def splitBar (toks : List String) : List (List String) :=
   let r := toks.foldl (fun (acc : List (List String) × List String) t =>
